@@ -311,6 +311,43 @@ harness!(c09_total_3, 10, total::<3>());
 //@ stubs: drop_in_place -> no-op
 harness!(c09_total_5, 12, total::<5>());
 
+/// fixed opening ending in a started escape, tail of every length 0..=N
+fn open_escape_tail<const N: usize>(prefix: &[u8], keypath: bool) {
+    let tail: [u8; N] = kani::any();
+    let len: usize = kani::any();
+    kani::assume(len <= N);
+    let mut l = 0;
+    while l <= N {
+        if len == l {
+            let mut w = W::new();
+            w.s(prefix);
+            w.s(&tail[..l]);
+            if keypath {
+                let r = crate::keypath::parse_key_paths(w.bytes());
+                kani::cover!(r.is_err(), "rejected");
+                core::mem::forget(r);
+            } else {
+                let r = parse_json_path(w.bytes());
+                kani::cover!(r.is_err(), "rejected");
+                core::mem::forget(r);
+            }
+        }
+        l += 1;
+    }
+}
+//@ props: C09, C16
+//@ timeout: 1800
+//@ harness: c09_cut_u, c09_cut_ubrace, c09_cut_quoted_u, c16_cut_u, c16_cut_ubrace
+//@ desc: escapes cut off at every point: `$.a\\u`, `$.a\\u{`, `$."\\u` (JSONPath) and `{a\\u`, `{a\\u{` (key path) followed by every tail of 0..=5 arbitrary bytes (so the input may end one hex digit short, without the closing brace, or with non-hex digits): an error or a value, never a panic
+//@ fns: parse_json_path, parse_key_paths, raw_string, string, check_escaped, parse_string, parse_escaped_string, decode_hex_escape
+//@ bounds: tails <= 5 bytes
+//@ stubs: drop_in_place -> no-op
+harness!(c09_cut_u, 16, open_escape_tail::<5>(b"$.a\\u", false));
+harness!(c09_cut_ubrace, 16, open_escape_tail::<5>(b"$.a\\u{", false));
+harness!(c09_cut_quoted_u, 16, open_escape_tail::<5>(b"$.\"\\u", false));
+harness!(c16_cut_u, 16, open_escape_tail::<5>(b"{a\\u", true));
+harness!(c16_cut_ubrace, 16, open_escape_tail::<5>(b"{a\\u{", true));
+
 /// fixed opening, arbitrary tail: unterminated quotes and cut-off escapes inside names and literals
 fn open_tail(which: usize) {
     let tail: [u8; 4] = kani::any();
